@@ -7,6 +7,7 @@ import (
 	"io"
 	"os"
 	"path/filepath"
+	"reflect"
 	"regexp"
 	"sort"
 	"strings"
@@ -204,6 +205,7 @@ func descItems() ([]descItem, error) {
 			}
 		}
 		add("message", keys(a.messages), keys(b.messages))
+		add("gotype", keys(a.messages), keys(b.messages))
 		add("enum", keys(a.enums), keys(b.enums))
 		add("service", keys(a.services), keys(b.services))
 		add("method", keys(a.methods), keys(b.methods))
@@ -311,6 +313,9 @@ func checkDesc(it descItem) (error, bool, []string) {
 	classes := []string{"kind:" + it.Kind}
 	if it.Kind == "grpc" {
 		return checkGRPC(it, classes)
+	}
+	if it.Kind == "gotype" {
+		return checkGoType(it, classes)
 	}
 	g, a := u.gogo[it.File], u.api[it.File]
 	wantGogo, inSource := u.source[it.File]
@@ -461,6 +466,81 @@ func checkDesc(it descItem) (error, bool, []string) {
 	return pbt.Failf("harness/bad-item", "unknown kind %q", it.Kind), false, classes
 }
 
+// resolvePath walks a generated type's (file descriptor, index path) pair to the message it denotes.
+func resolvePath(gz []byte, path []int) (file, name string, err error) {
+	raw, err := gunzip(gz)
+	if err != nil {
+		return "", "", err
+	}
+	fd := &descriptorpb.FileDescriptorProto{}
+	if err := proto.Unmarshal(raw, fd); err != nil {
+		return "", "", err
+	}
+	if len(path) == 0 || path[0] < 0 || path[0] >= len(fd.MessageType) {
+		return fd.GetName(), "", fmt.Errorf("index path %v outside the %d top-level messages", path, len(fd.MessageType))
+	}
+	m := fd.MessageType[path[0]]
+	name = fd.GetPackage() + "." + m.GetName()
+	for _, i := range path[1:] {
+		if i < 0 || i >= len(m.NestedType) {
+			return fd.GetName(), name, fmt.Errorf("index path %v outside the nested messages of %s", path, name)
+		}
+		m = m.NestedType[i]
+		name += "." + m.GetName()
+	}
+	return fd.GetName(), name, nil
+}
+
+// checkGoType: the Go type registered under a message name must, through its own generated accessors, carry that
+// message's descriptor - gogoproto types through Descriptor() (file bytes + index path, what the SDK's tx decoder
+// and golang/protobuf's legacy wrapper use), api types through ProtoReflect().Descriptor() and their deprecated
+// Descriptor() method.
+func checkGoType(it descItem, classes []string) (error, bool, []string) {
+	full := it.Name
+	nontrivial := false
+	// (map entry messages are registered as Go map types: they have no accessors of their own)
+	if rt := gogoproto.MessageType(full); rt != nil && rt.Kind() == reflect.Ptr && rt.Elem().Kind() == reflect.Struct {
+		v := reflect.New(rt.Elem()).Interface()
+		if d, ok := v.(interface{ Descriptor() ([]byte, []int) }); ok {
+			gz, path := d.Descriptor()
+			file, name, err := resolvePath(gz, path)
+			if err != nil {
+				return pbt.Failf("C20/gotype-descriptor-path", "gogoproto type %s registered as %s: Descriptor() does not resolve: %v", rt, full, err), false, classes
+			}
+			if name != full || file != it.File {
+				return pbt.Failf("C20/gotype-descriptor-mismatch", "gogoproto type %s is registered as %s (%s) but its Descriptor() denotes %s (%s)", rt, full, it.File, name, file), false, classes
+			}
+			classes = append(classes, "gotype:gogo")
+			nontrivial = true
+		}
+		if n, ok := v.(interface{ XXX_MessageName() string }); ok && n.XXX_MessageName() != full {
+			return pbt.Failf("C20/gotype-descriptor-mismatch", "gogoproto type %s is registered as %s but names itself %s", rt, full, n.XXX_MessageName()), false, classes
+		}
+	}
+	if mt, err := protoregistry.GlobalTypes.FindMessageByName(protoreflect.FullName(full)); err == nil {
+		msg := mt.New().Interface()
+		if got := msg.ProtoReflect().Descriptor().FullName(); string(got) != full {
+			return pbt.Failf("C20/gotype-descriptor-mismatch", "api type %T is registered as %s but its reflection descriptor is %s", msg, full, got), false, classes
+		}
+		if got := msg.ProtoReflect().Descriptor().ParentFile().Path(); got != it.File {
+			return pbt.Failf("C20/gotype-descriptor-mismatch", "api type %T (%s) reports file %s, registered under %s", msg, full, got, it.File), false, classes
+		}
+		if d, ok := msg.(interface{ Descriptor() ([]byte, []int) }); ok {
+			gz, path := d.Descriptor()
+			file, name, err := resolvePath(gz, path)
+			if err != nil {
+				return pbt.Failf("C20/gotype-descriptor-path", "api type %T registered as %s: Descriptor() does not resolve: %v", msg, full, err), false, classes
+			}
+			if name != full || file != it.File {
+				return pbt.Failf("C20/gotype-descriptor-mismatch", "api type %T is registered as %s (%s) but its Descriptor() denotes %s (%s)", msg, full, it.File, name, file), false, classes
+			}
+			classes = append(classes, "gotype:api")
+			nontrivial = true
+		}
+	}
+	return nil, nontrivial, classes
+}
+
 func optEmpty(m proto.Message) bool {
 	return m == nil || !m.ProtoReflect().IsValid() || len(optionFields(m)) == 0
 }
@@ -514,7 +594,7 @@ func checkGRPC(it descItem, classes []string) (error, bool, []string) {
 	return nil, true, classes
 }
 
-const descRule = "element (file, message, enum, service, method, gRPC service descriptor) present in both families and non-empty"
+const descRule = "element (file, message, enum, service, method, gRPC service descriptor, Go type of a message with its own Descriptor()/reflection accessors) present in both families and non-empty"
 
 func init() { pbt.RegisterPure("descriptors", checkDesc) }
 
